@@ -34,6 +34,43 @@ Fixpoint utf8 (cps : list Z) : option (list Z) :=
               end
   end.
 
+(* ---- UTF-8 decoder written from the table of RFC 3629 section 3/4 (the SPECIFICATION the encoder above is proved
+        against in Proofs/PartitionerUtf8.v): shortest form only (lead bytes C2..DF, E0..EF, F0..F4; a 3-byte form
+        decodes to >= 0x800, a 4-byte form to 0x10000..0x10FFFF), continuation bytes 80..BF, no surrogates. ---- *)
+Definition is_cont (b : Z) : bool := (0x80 <=? b) && (b <=? 0xBF).
+Definition is_scalar (c : Z) : bool :=
+  (0 <=? c) && (c <? 0x110000) && negb ((0xD800 <=? c) && (c <=? 0xDFFF)).
+
+Fixpoint utf8_decode (l : list Z) : option (list Z) :=
+  match l with
+  | [] => Some []
+  | b0 :: r =>
+      if (0 <=? b0) && (b0 <? 0x80) then option_map (cons b0) (utf8_decode r)
+      else if (0xC2 <=? b0) && (b0 <=? 0xDF) then
+        match r with
+        | b1 :: r1 =>
+            if is_cont b1 then option_map (cons ((b0 - 0xC0) * 64 + (b1 - 0x80))) (utf8_decode r1) else None
+        | _ => None
+        end
+      else if (0xE0 <=? b0) && (b0 <=? 0xEF) then
+        match r with
+        | b1 :: b2 :: r2 =>
+            let c := (b0 - 0xE0) * 4096 + (b1 - 0x80) * 64 + (b2 - 0x80) in
+            if is_cont b1 && is_cont b2 && (0x800 <=? c) && is_scalar c
+            then option_map (cons c) (utf8_decode r2) else None
+        | _ => None
+        end
+      else if (0xF0 <=? b0) && (b0 <=? 0xF4) then
+        match r with
+        | b1 :: b2 :: b3 :: r3 =>
+            let c := (b0 - 0xF0) * 262144 + (b1 - 0x80) * 4096 + (b2 - 0x80) * 64 + (b3 - 0x80) in
+            if is_cont b1 && is_cont b2 && is_cont b3 && (0x10000 <=? c) && is_scalar c
+            then option_map (cons c) (utf8_decode r3) else None
+        | _ => None
+        end
+      else None
+  end.
+
 (* ---- HashedPartitioner.partition: partitioner.py:206-219 ---- *)
 Definition hashed_index (key : list Z) (n : Z) : Z :=
   (Z.land (pure_murmur2 key) 0x7FFFFFFF) mod n.
@@ -83,6 +120,22 @@ Fixpoint rr_run (s : rr) (calls : list (list Z * nat)) : list Z :=
   | (parts, start) :: r =>
       match rr_partition s parts start with
       | Some (p, s') => p :: rr_run s' r
+      | None => [-1]
+      end
+  end.
+
+(* The property speaks about ASCENDING lists only.  For the differential run the selections are therefore compared
+   exactly up to the first non-ascending list of a history; from there on only "is a member of the supplied list"
+   (-2) / "is not" (-3) is compared, so that a rewrite which treats non-ascending lists differently (e.g. cycling over
+   the sorted copy) is not an alarm. *)
+Fixpoint rr_run_canon (s : rr) (exact : bool) (calls : list (list Z * nat)) : list Z :=
+  match calls with
+  | [] => []
+  | (parts, start) :: r =>
+      let exact' := exact && zlist_eqb (zsort parts) parts in
+      match rr_partition s parts start with
+      | Some (p, s') =>
+          (if exact' then p else if existsb (Z.eqb p) parts then -2 else -3) :: rr_run_canon s' exact' r
       | None => [-1]
       end
   end.
@@ -172,5 +225,19 @@ Definition run_case (c : list Z) : list Z :=
               | _ => [-99] end
   | 5 :: r => match take_lp r with
               | Some (d, _) => [murmur2_java (map sbyte d) mod 0x100000000] | None => [-99] end
+  | 6 :: r => match take_lp r with
+              | Some (ps, st :: r2) =>
+                  match rr_set ps (Z.to_nat st) with
+                  | Some s => rr_run_canon s (zlist_eqb (zsort ps) ps) (parse_calls (length r2) r2)
+                  | None => [-1]
+                  end
+              | _ => [-99] end
+  | 7 :: r => match take_lp r with
+              | Some (cps, _) => match utf8 cps with Some b => 1 :: b | None => [0] end
+              | None => [-99] end
+  (* 8: the Java client's  murmur2(key)  as a signed int, then  toPositive(murmur2(key)) % n  for each n *)
+  | 8 :: r => match take_lp r with
+              | Some (d, ns) => murmur2_java (map sbyte d) :: map (java_partition (map sbyte d)) ns
+              | None => [-99] end
   | _ => [-99]
   end.
